@@ -6,10 +6,11 @@ C15 — specification-side definitions.
   printed up to its first NUL, at most `maxHops` compression pointers in a row, every byte
   used lies inside the datagram).  `first = false` means a label was already printed, so the
   next piece is preceded by '.'.
-* `Hist`/`runH`: the history of an operation sequence as the property talks about it — which
-  lookups had their callback run, which were cancelled while outstanding, which were refused.
-* `freshRun`: the (decidable) side condition "no lookup is given a 16-bit id that is still
-  outstanding".
+* The history of an operation sequence as the property talks about it (which lookups had their
+  callback run, which were cancelled while outstanding, which were refused) is kept by the model
+  itself in the ghost fields `St.called / cancelled / refused`; the (decidable) side condition "no
+  lookup was handed a 16-bit id that was still outstanding or still in the timeout ring" is the
+  ghost flag `St.idReuse = false`.
 -/
 import TboxModel.C15.Model
 namespace Tbox.C15
@@ -38,37 +39,5 @@ def AddrEncoded (d : List Byte) (r : ARec) : Prop :=
 /-- a reported CNAME is encoded somewhere in the datagram -/
 def NameEncoded (d : List Byte) (r : CRec) : Prop :=
   ∃ pos, Decodes d 0 pos true r.name
-
-/-! ### histories -/
-
-structure Hist where
-  called : List Nat := []      -- serials whose callback ran (in order, with repetitions if any)
-  cancelled : List Nat := []   -- serials cancelled while outstanding
-  refused : List Nat := []     -- serials of refused lookups (no server configured)
-deriving Repr, DecidableEq
-
-/-- bookkeeping of one step (looks only at the pre-state and the step's output) -/
-def histStep (st : St) (h : Hist) (op : Op) : Hist :=
-  let o := (step st op).2
-  let h := { h with called := h.called ++ o.events.map (·.serial) }
-  match op with
-  | .cancel id =>
-    match find st.reqs id with
-    | some r => { h with cancelled := h.cancelled ++ [r.serial] }
-    | none => h
-  | .lookup => if st.servers = 0 then { h with refused := h.refused ++ [st.nextSerial] } else h
-  | _ => h
-
-def runH (st : St) (h : Hist) : List Op → St × Hist
-  | [] => (st, h)
-  | op :: ops => runH (step st op).1 (histStep st h op) ops
-
-/-- no `lookup` of the sequence is handed an id that is still outstanding -/
-def freshRun (st : St) : List Op → Bool
-  | [] => true
-  | op :: ops =>
-    (match op with
-     | .lookup => st.servers = 0 || (find st.reqs ((st.alloc + 1) % 65536)).isNone
-     | _ => true) && freshRun (step st op).1 ops
 
 end Tbox.C15
